@@ -59,6 +59,10 @@ func c06Scenario(r *vf.Run, t *testing.T, id string, rng *rand.Rand) {
 		modes[i] = rng.Intn(3)
 		chunks[i] = []int{0, 1000, 16384, 20000, 100000}[rng.Intn(5)]
 	}
+	uploading := make([]bool, k)
+	for i := range uploading {
+		uploading[i] = rng.Intn(4) == 0
+	}
 	nsteps := rng.Intn(r.Pick(40, 60))
 	gateAll := rng.Intn(2) == 0
 	var actions []rt.Action
@@ -91,7 +95,14 @@ func c06Scenario(r *vf.Run, t *testing.T, id string, rng *rand.Rand) {
 				pl.Gate = g
 			}
 			e.H.SetPlan(tag, pl)
-			out = append(out, simpleGet(e.P, uint32(2*i+1), tag)...)
+			if uploading[i] {
+				// the request is still being sent while windows change: HEADERS now, the end of the body at a later step
+				blk := e.P.EncodeBlock([]F{{Name: ":method", Value: "POST"}, {Name: ":scheme", Value: "https"}, {Name: ":path", Value: "/" + tag}, {Name: ":authority", Value: "c.example"}, {Name: "x-vtag", Value: tag}}, nil)
+				out = append(out, rt.Concat(rt.HeaderFrames(uint32(2*i+1), blk, nil, -1, nil, false))...)
+				out = append(out, wire.Frame(nil, wire.TData, 0, uint32(2*i+1), []byte("first part"), -1)...)
+			} else {
+				out = append(out, simpleGet(e.P, uint32(2*i+1), tag)...)
+			}
 			led.Opened = append(led.Opened, uint32(2*i+1))
 		}
 		e.P.Write(out)
@@ -165,6 +176,14 @@ func c06Scenario(r *vf.Run, t *testing.T, id string, rng *rand.Rand) {
 					actions = append(actions, rt.Action{At: at, Kind: "settings-maxframe", Val: v, SetSeq: setSeq})
 					kinds = append(kinds, "mf")
 				case 6:
+					for i := range uploading {
+						if uploading[i] && rng.Intn(2) == 0 {
+							uploading[i] = false
+							burst = append(burst, wire.Frame(nil, wire.TData, wire.FEndStream, uint32(2*i+1), []byte("the end"), -1)...)
+							kinds = append(kinds, "u")
+							break
+						}
+					}
 					if gi < len(gates) {
 						rt.Open(gates[gi])
 						gi++
@@ -179,6 +198,19 @@ func c06Scenario(r *vf.Run, t *testing.T, id string, rng *rand.Rand) {
 			check(fmt.Sprintf("after step %d", step))
 		}
 		// enough credit for everything, then completion
+		{
+			var fin []byte
+			for i := range uploading {
+				if uploading[i] {
+					uploading[i] = false
+					fin = append(fin, wire.Frame(nil, wire.TData, wire.FEndStream, uint32(2*i+1), []byte("the end"), -1)...)
+				}
+			}
+			if len(fin) > 0 {
+				e.P.Write(fin)
+				rt.Wait()
+			}
+		}
 		for ; gi < len(gates); gi++ {
 			rt.Open(gates[gi])
 		}
